@@ -565,7 +565,44 @@ impl Profile for WireFaults {
 
 // ------------------------------------------------------------------------------------ C04
 
-pub struct Misdeliver;
+pub struct Misdeliver {
+    /// worlds of the custom-chain family (interfaces with their own message / query types)
+    pub custom: bool,
+}
+
+/// Let the first contract of the world instantiate another one while it is being instantiated
+/// itself (so that a contract exists whose creator is a contract).
+fn spawn_child_in_setup(rng: &mut Rng, reg: &Reg, wp: &mut WorldPlan) {
+    let Some(c0) = wp.codes.first() else { return };
+    let Some(e0) = reg.get(&c0.cid) else { return };
+    if e0.spec.overrides.contains(&Kind::Instantiate) || e0.spec.overrides.contains(&Kind::Exec) || e0.spec.of_kind(Kind::Exec).all(|h| h.fn_name != "go") {
+        return;
+    }
+    let Some(h0) = e0.spec.of_kind(Kind::Instantiate).next() else { return };
+    if h0.args.iter().all(|a| a.ty != "Script") {
+        return;
+    }
+    let k = rng.below(wp.codes.len() as u64) as usize;
+    let Some(ek) = reg.get(&wp.codes[k].cid) else { return };
+    if ek.spec.overrides.contains(&Kind::Instantiate) {
+        return;
+    }
+    let Some(hk) = ek.spec.of_kind(Kind::Instantiate).next() else { return };
+    let accounts: Vec<String> = wp.accounts.iter().map(|(n, _)| account_addr(n).to_string()).collect();
+    let child_args = gen_args(rng, hk.args, &Pool { addrs: &accounts }, None);
+    // (code ids are handed out in storing order, from 1)
+    let script = json!([{"send": {"msg": {"inst": {"code_id": k + 1, "ty": "", "args": sylvia::cw_std::Binary::from(serde_json::to_vec(&Value::Object(child_args)).unwrap()).to_base64(), "label": "child", "admin": null, "funds": null, "salt": null}}, "reply": "none", "gas_limit": null}}]);
+    if let Some(Op::Instantiate { msg, intent, .. }) = wp.setup.first_mut() {
+        if let Ok(Value::Object(mut o)) = serde_json::from_slice::<Value>(&msg.0) {
+            let name = h0.args.iter().find(|a| a.ty == "Script").map(|a| a.name).unwrap_or("script");
+            o.insert(name.to_string(), script);
+            *msg = Doc::json(&Value::Object(o.clone()));
+            if let Some(i) = intent {
+                i.args = Value::Object(o);
+            }
+        }
+    }
+}
 
 fn doc_of_kind(rng: &mut Rng, tg: &mut TrafficGen, c: &ContractInfo, k: Kind) -> Option<(Value, String)> {
     let e = tg.sg.reg.get(&c.cid)?;
@@ -582,6 +619,11 @@ fn doc_of_kind(rng: &mut Rng, tg: &mut TrafficGen, c: &ContractInfo, k: Kind) ->
             }
             let h = *rng.pick(&hs);
             let args = tg.sg.args_for(rng, &c.cid, h, 2);
+            // the arguments of a struct message may also come dressed as a variant named after
+            // the method (the shape an enum message of another kind would have for it)
+            if matches!(k, Kind::Instantiate | Kind::Migrate) && rng.chance(1, 3) {
+                return Some((json!({ h.fn_name: Value::Object(args) }), h.id()));
+            }
             Some((doc_for(h, &args), h.id()))
         }
     }
@@ -592,9 +634,20 @@ impl Profile for Misdeliver {
         "C04"
     }
     fn name(&self) -> &'static str {
-        "f1-misdeliver"
+        if self.custom {
+            "f5-misdeliver"
+        } else {
+            "f1-misdeliver"
+        }
     }
     fn gen_world(&self, rng: &mut Rng, reg: &Reg) -> WorldPlan {
+        if self.custom {
+            let pool: Vec<&Entry> = reg.family("f5");
+            let n = rng.range(1, 3 + crate::extra_contracts()) as usize;
+            let mut wp = simple_world(rng, reg, &pool, n, true);
+            spawn_child_in_setup(rng, reg, &mut wp);
+            return wp;
+        }
         let mut pool: Vec<&Entry> = reg.family("f1");
         // programs where the same name / shape exists in several kinds come up more often
         let shared: Vec<&Entry> = pool.iter().copied().filter(|e| e.spec.has_tag("shared_names") || e.spec.cid.ends_with("::pa")).collect();
@@ -609,7 +662,9 @@ impl Profile for Misdeliver {
             pool.extend(ov.iter().copied());
         }
         let n = rng.range(1, 3 + crate::extra_contracts()) as usize;
-        simple_world(rng, reg, &pool, n, false)
+        let mut wp = simple_world(rng, reg, &pool, n, false);
+        spawn_child_in_setup(rng, reg, &mut wp);
+        wp
     }
     fn gen_ops(&self, rng: &mut Rng, reg: &Reg, wp: &WorldPlan, base: &RunRecord) -> Vec<Op> {
         if base.contracts.is_empty() {
@@ -620,6 +675,8 @@ impl Profile for Misdeliver {
         sg.max_depth = 1;
         let mut tg = TrafficGen { sg, codes: &wp.codes, cross_migrate: false, model: vec![] };
         let accounts = &base.accounts;
+        // contracts created by the first contract while it was instantiated (it is their creator)
+        let parent = base.contracts.iter().find(|c| c.code == 0).cloned();
         let n = rng.range(3, 10 * crate::scale());
         let mut ops = vec![];
         for _ in 0..n {
@@ -635,6 +692,12 @@ impl Profile for Misdeliver {
             let Some((doc, _)) = doc_of_kind(rng, &mut tg, &c, k1) else { continue };
             let msg = Doc::json(&doc);
             let op = match k2 {
+                // the document reaches a contract made by another contract from its creator
+                Kind::Exec if c.code == usize::MAX && parent.is_some() && rng.chance(2, 3) => {
+                    let p = parent.clone().unwrap();
+                    let script = json!([{"send": {"msg": {"exec": {"peer": c.addr, "ty": "", "method": "", "args": sylvia::cw_std::Binary::from(msg.0.clone()).to_base64(), "funds": null, "form": 0, "slot": null}}, "reply": "none", "gas_limit": null}}]);
+                    Op::Exec { target: p.addr.clone(), sender: rng.pick(accounts).clone(), msg: Doc::json(&json!({"go": {"script": script}})), funds: vec![], intent: None }
+                }
                 // sometimes the contract sends the document to its own execute entry point
                 Kind::Exec if rng.chance(1, 3) && reg.get(&c.cid).map(|e| e.spec.of_kind(Kind::Exec).any(|h| h.fn_name == "go") && !e.spec.overrides.contains(&Kind::Exec)).unwrap_or(false) => {
                     let script = json!([{"send": {"msg": {"exec": {"peer": c.addr, "ty": "", "method": "", "args": sylvia::cw_std::Binary::from(msg.0.clone()).to_base64(), "funds": null, "form": 0, "slot": null}}, "reply": "none", "gas_limit": null}}]);
